@@ -9,8 +9,8 @@ import HL.Lemmas.LexExtent
   (`commodity` and `text` ask `C` about the ASCII letters they see; that is a hypothesis).
 
     next_date          line start:  digits and `- / .`
-    next_indent        line start:  blanks, tabs, CR
-    next_blank_line    line start:  LF
+    next_indent        line start:  blanks, tabs
+    next_blank_line    line start:  LF or CR LF (`next_blank_line_c`)
     next_inline        inside a line `Next` = `scanInLineAt` behind the skipped blanks
     scanInLineAt_text, _account, _sign, _number, _commodity, _newline, _eof
 -/
@@ -46,15 +46,27 @@ theorem mkTok_over (ty : TokType) (v : Bytes) (z : Z) (l rest : Bytes) :
 /-! ### byte facts -/
 
 def dateByte (ch : UInt8) : Bool := isDigit ch || ch == 0x2D || ch == 0x2F || ch == 0x2E
-def indentByte (c : UInt8) : Bool := isWhitespace c && c != 0x0A
+def indentByte (c : UInt8) : Bool := isWhitespace c && c != 0x0A && c != 0x0D
 def alnum (c : UInt8) : Bool := isLetter c || isDigit c
-def textByte (ch : UInt8) : Bool := !(ch == 0x0A || ch == 0x3B || ch == 0x7C)
+/-- a byte inside a text lexeme: none of LF, CR, `;`, `|` -/
+def textByte (ch : UInt8) : Bool := !(ch == 0x0A || ch == 0x0D || ch == 0x3B || ch == 0x7C)
+/-- the loop condition of `scanText` (line ends are tested separately, `atEol`) -/
+def textP (ch : UInt8) : Bool := !(ch == 0x3B || ch == 0x7C)
 def isLower (c : UInt8) : Bool := 0x61 ≤ c && c ≤ 0x7A
 def isUpper (c : UInt8) : Bool := 0x41 ≤ c && c ≤ 0x5A
 
 theorem dateByte_lt : ∀ c : UInt8, (!dateByte c || decide (c < 0x80)) = true :=
   forall_uint8 _ (by decide +kernel)
 theorem indentByte_facts : ∀ c : UInt8, (!indentByte c || (decide (c < 0x80) && c != 0x3B)) = true :=
+  forall_uint8 _ (by decide +kernel)
+theorem indentByte_line : ∀ c : UInt8, (!indentByte c ||
+    (isWhitespace c && decide (c < 0x80) && c != 0x0A && c != 0x0D)) = true :=
+  forall_uint8 _ (by decide +kernel)
+theorem textByte_line : ∀ c : UInt8, (!textByte c || (textP c && c != 0x0A && c != 0x0D)) = true :=
+  forall_uint8 _ (by decide +kernel)
+theorem not_cr_facts : ∀ c : UInt8, (!(isDigit c || isLetter c) || c != 0x0D) = true :=
+  forall_uint8 _ (by decide +kernel)
+theorem digit_not_ws : ∀ c : UInt8, (!isDigit c || !isWhitespace c) = true :=
   forall_uint8 _ (by decide +kernel)
 theorem digit_facts : ∀ c : UInt8, (!isDigit c ||
     (decide (c < 0x80) && c != 0x3B && !indentByte c && c != 0x0A && c != 0x28 && c != 0x29 && c != 0x5B &&
@@ -94,10 +106,10 @@ theorem next_date (C : Classes) {z : Z} {d rest : Bytes} (hs : z.atStart = true)
     Bool.not_eq_true'] at hf
   unfold next
   simp only [hz', hs, hc, beq_self_eq_true, Bool.and_self, if_true]
-  unfold scanLineStart
+  unfold scanLineStart scanLineStartAt
   have hp : peek { z with atStart := false } = c := by simp [peek, hz']
-  have hw : (isWhitespace c && c != 0x0A) = false := hf.1.1.1.1.1.1.1.1.1.1.1.1.1.1.1.2
-  simp only [hp, hw, hc0, Bool.false_eq_true, if_false, if_true]
+  have hw : isWhitespace c = false := by simpa [hc0] using digit_not_ws c
+  simp only [hp, hw, hc0, Bool.false_and, Bool.false_eq_true, if_false, if_true]
   rw [if_neg (by simpa using hf.1.1.1.1.1.1.1.1.1.1.1.1.1.1.1.1.2)]
   unfold scanDate
   have he : advWhile (fun ch => isDigit ch || ch == 0x2D || ch == 0x2F || ch == 0x2E) z.started
@@ -110,25 +122,32 @@ theorem next_date (C : Classes) {z : Z} {d rest : Bytes} (hs : z.atStart = true)
 
 theorem next_indent (C : Classes) {z : Z} {sp rest : Bytes} (hs : z.atStart = true) (hc : z.col = 1)
     (hz : z.after = sp ++ rest) (hne : sp ≠ []) (hsp : ∀ c ∈ sp, indentByte c = true)
-    (hstop : Stops indentByte rest) :
+    (hstop : StopsL isWhitespace rest) :
     next C z = (tokAt .indent sp z sp.length, z.started.over sp rest) := by
   obtain ⟨c, t, rfl⟩ := List.exists_cons_of_ne_nil hne
   have hz' : z.after = c :: (t ++ rest) := by simpa using hz
   have hc0 := hsp c (by simp)
   have hf := indentByte_facts c
   simp only [hc0, Bool.not_true, Bool.false_or, Bool.and_eq_true, decide_eq_true_eq, bne_iff_ne, ne_eq] at hf
+  have hline : ∀ x ∈ c :: t, isWhitespace x = true ∧ x < 0x80 ∧ x ≠ LF ∧ x ≠ 0x0D := by
+    intro x hx
+    have := indentByte_line x
+    simp only [hsp x hx, Bool.not_true, Bool.false_or, Bool.and_eq_true, decide_eq_true_eq, bne_iff_ne, ne_eq] at this
+    exact ⟨this.1.1.1, this.1.1.2, this.1.2, this.2⟩
   unfold next
   simp only [hz', hs, hc, beq_self_eq_true, Bool.and_self, if_true]
-  unfold scanLineStart
+  unfold scanLineStart scanLineStartAt
   have hp : peek { z with atStart := false } = c := by simp [peek, hz']
-  have hw : (isWhitespace c && c != 0x0A) = true := hc0
+  have hw : (isWhitespace c && !atEol ({ z with atStart := false } : Z).after) = true := by
+    have h1 := hline c (by simp)
+    show (isWhitespace c && !atEol z.after) = true
+    rw [hz', atEol_of_ne h1.2.2.1 h1.2.2.2, h1.1]; rfl
   simp only [hp, hw, if_true]
   rw [if_neg (by simpa using hf.2)]
   unfold scanIndent
-  have he : advWhile (fun c => isWhitespace c && c != 0x0A) z.started = z.started.over (c :: t) rest :=
-    advWhile_over indentByte (z := z.started) hz
-      (fun x hx => ⟨hsp x hx, by have := indentByte_facts x; simp [hsp x hx] at this; exact this.1⟩) hstop
-  show mkTok .indent (between z.started (advWhile _ z.started)) z.started (advWhile _ z.started) = _
+  have he : advLine isWhitespace z.started = z.started.over (c :: t) rest :=
+    advLine_over isWhitespace (z := z.started) hz hline hstop
+  show mkTok .indent (between z.started (advLine _ z.started)) z.started (advLine _ z.started) = _
   rw [he, between_over, mkTok_over]
   rfl
 
@@ -140,29 +159,91 @@ def nlTok (z : Z) : Token := ⟨.newline, [LF], z.position, ⟨z.line + 1, 1, z.
 
 theorem scanNewline_at {z : Z} {t : Bytes} (hz : z.after = LF :: t) : scanNewline z = (nlTok z, z.nl t) := by
   unfold scanNewline
-  rw [advance_over hz (by decide)]
+  have h0 : advIf (· == 0x0D) z = z := by simp [advIf, hz]
+  rw [h0, advance_over hz (by decide)]
   simp [mkTok, nlTok, Z.nl, Z.over, Z.position]
 
-theorem next_blank_line (C : Classes) {z : Z} {t : Bytes} (hz : z.after = LF :: t) :
-    next C z = (nlTok z, z.nl t) := by
-  have hsk : ∀ z' : Z, z'.after = LF :: t → scanInLine C z' = scanNewline z' := by
-    intro z' hz'
-    unfold scanInLine
-    rw [skipSpaces_none (by rw [hz']; exact Stops.cons _ (by decide))]
-    unfold scanInLineAt
-    simp [hz']
+/-- a line end: LF, or CR LF -/
+def eol (cr : Bool) : Bytes := if cr then [0x0D, LF] else [LF]
+
+@[simp] theorem eol_false : eol false = [LF] := rfl
+@[simp] theorem eol_true : eol true = [0x0D, LF] := rfl
+
+theorem atEol_eol (cr : Bool) (t : Bytes) : atEol (eol cr ++ t) = true := by
+  cases cr <;> rfl
+
+/-- the state behind the line end `eol cr` -/
+def Z.nlc (z : Z) (cr : Bool) (rest : Bytes) : Z :=
+  ⟨(eol cr).reverse ++ z.before, rest, z.line + 1, 1, true⟩
+
+/-- the Newline token at `z` for the line end `eol cr`: it starts at the CR, if there is one -/
+def nlTokc (z : Z) (cr : Bool) : Token :=
+  ⟨.newline, [LF], z.position, ⟨z.line + 1, 1, z.before.length + (eol cr).length⟩⟩
+
+theorem nlc_false (z : Z) (t : Bytes) : z.nlc false t = z.nl t := rfl
+theorem nlTokc_false (z : Z) : nlTokc z false = nlTok z := rfl
+
+/-- **Newline.**  `"\n"` and `"\r\n"` are each ONE Newline token. -/
+theorem scanNewline_atc {z : Z} {t : Bytes} (cr : Bool) (hz : z.after = eol cr ++ t) :
+    scanNewline z = (nlTokc z cr, z.nlc cr t) := by
+  cases cr with
+  | false => exact scanNewline_at (by simpa using hz)
+  | true =>
+    have hz' : z.after = 0x0D :: LF :: t := by simpa using hz
+    unfold scanNewline
+    have h0 : advIf (· == 0x0D) z = z.over [0x0D] (LF :: t) := by
+      simp only [advIf, hz', beq_self_eq_true, if_true]
+      exact advance_over hz' (by decide)
+    rw [h0, advance_over (z := z.over [0x0D] (LF :: t)) rfl (by decide)]
+    simp [mkTok, nlTokc, Z.nlc, Z.over, Z.position]
+
+theorem scanInLine_eol (C : Classes) {z : Z} {t : Bytes} (cr : Bool) (hz : z.after = eol cr ++ t) :
+    scanInLine C z = scanNewline z := by
+  have hb : Stops isBlank z.after := by
+    rw [hz]; cases cr <;> exact Stops.cons _ (by decide)
+  unfold scanInLine
+  rw [skipSpaces_none hb]
+  unfold scanInLineAt
+  have ha := atEol_eol cr t
+  rw [← hz] at ha
+  cases hz2 : z.after with
+  | nil => rw [hz2] at hz; cases cr <;> simp at hz
+  | cons ch u => rw [hz2] at ha; simp only [ha, if_true]
+
+/-- **Blank line** (at a line start): `Next` returns the Newline token for `"\n"` / `"\r\n"`. -/
+theorem next_blank_line_c (C : Classes) {z : Z} {t : Bytes} (cr : Bool) (hz : z.after = eol cr ++ t) :
+    next C z = (nlTokc z cr, z.nlc cr t) := by
+  have hne : ∃ ch u, z.after = ch :: u := by
+    cases cr
+    · exact ⟨_, _, by simpa using hz⟩
+    · exact ⟨_, _, by simpa using hz⟩
+  obtain ⟨ch, u, hcu⟩ := hne
   unfold next
-  simp only [hz]
+  simp only [hcu]
   split
-  · unfold scanLineStart
-    have hp : peek { z with atStart := false } = LF := by simp [peek, hz]
-    simp only [hp]
-    rw [if_neg (by decide), if_neg (by decide), if_neg (by decide), if_neg (by decide),
-      hsk _ (by simpa using hz)]
+  · unfold scanLineStart scanLineStartAt
+    have ha : atEol ({ z with atStart := false } : Z).after = true := by
+      show atEol z.after = true
+      rw [hz]; exact atEol_eol cr t
+    have hp : peek { z with atStart := false } = ch := by simp [peek, hcu]
+    have hch : ch = 0x0A ∨ ch = 0x0D := by
+      cases cr
+      · left; have := hcu.symm.trans hz; simp at this; exact this.1
+      · right; have := hcu.symm.trans hz; simp at this; exact this.1
+    simp only [hp, ha, Bool.not_true, Bool.and_false]
+    have h1 : (ch == 0x3B) = false := by rcases hch with rfl | rfl <;> decide
+    have h2 : isDigit ch = false := by rcases hch with rfl | rfl <;> decide
+    have h3 : isLetter ch = false := by rcases hch with rfl | rfl <;> decide
+    simp only [h1, h2, h3, Bool.false_eq_true, if_false]
+    rw [scanInLine_eol C cr (z := ({ z with atStart := false } : Z)) (t := t) hz]
     show scanNewline z.started = _
-    rw [scanNewline_at (z := z.started) hz]
+    rw [scanNewline_atc (z := z.started) cr hz]
     rfl
-  · rw [hsk z hz, scanNewline_at hz]
+  · rw [scanInLine_eol C cr hz, scanNewline_atc cr hz]
+
+theorem next_blank_line (C : Classes) {z : Z} {t : Bytes} (hz : z.after = LF :: t) :
+    next C z = (nlTok z, z.nl t) :=
+  next_blank_line_c C false (by simpa using hz)
 
 /-! ### inside a line -/
 
@@ -186,11 +267,21 @@ theorem scanInLineAt_eof (C : Classes) {z : Z} (hz : z.after = []) :
     scanInLineAt C z = (⟨.eof, [], z.position, z.position⟩, z) := by
   simp [scanInLineAt, hz, mkTok]
 
-theorem scanInLineAt_newline (C : Classes) {z : Z} {t : Bytes} (hz : z.after = LF :: t) :
-    scanInLineAt C z = (nlTok z, z.nl t) := by
+theorem scanInLineAt_newline_c (C : Classes) {z : Z} {t : Bytes} (cr : Bool) (hz : z.after = eol cr ++ t) :
+    scanInLineAt C z = (nlTokc z cr, z.nlc cr t) := by
   unfold scanInLineAt
-  simp only [hz, beq_self_eq_true, if_true]
-  exact scanNewline_at hz
+  have ha := atEol_eol cr t
+  rw [← hz] at ha
+  cases hz2 : z.after with
+  | nil => rw [hz2] at hz; cases cr <;> simp at hz
+  | cons ch u =>
+    rw [hz2] at ha
+    simp only [ha, if_true]
+    exact scanNewline_atc cr hz
+
+theorem scanInLineAt_newline (C : Classes) {z : Z} {t : Bytes} (hz : z.after = LF :: t) :
+    scanInLineAt C z = (nlTok z, z.nl t) :=
+  scanInLineAt_newline_c C false (by simpa using hz)
 
 theorem scanInLineAt_letter (C : Classes) {z : Z} {c : UInt8} {t : Bytes} (hz : z.after = c :: t)
     (hl : isLetter c = true) :
@@ -199,8 +290,10 @@ theorem scanInLineAt_letter (C : Classes) {z : Z} {c : UInt8} {t : Bytes} (hz : 
   simp only [hl, Bool.not_true, Bool.false_or, Bool.and_eq_true, decide_eq_true_eq, bne_iff_ne, ne_eq,
     Bool.not_eq_true'] at hf
   obtain ⟨⟨⟨⟨⟨⟨⟨⟨⟨⟨⟨⟨⟨⟨⟨⟨⟨hlt, h1⟩, h2⟩, h3⟩, h4⟩, h5⟩, h6⟩, h7⟩, h8⟩, h9⟩, h10⟩, h11⟩, h12⟩, h13⟩, h14⟩, h15⟩, h16⟩, _⟩ := hf
+  have hcr : c ≠ 0x0D := by simpa [hl] using not_cr_facts c
+  have hae : atEol (c :: t) = false := atEol_of_ne h1 hcr
   unfold scanInLineAt
-  simp [hz, peekRune, decodeRune_ascii t hlt, h1, h2, h3, h4, h5, h6, h7, h8, h9, h10, h11, h12, h13, h14, h15,
+  simp [hz, hae, peekRune, decodeRune_ascii t hlt, h1, h2, h3, h4, h5, h6, h7, h8, h9, h10, h11, h12, h13, h14, h15,
     h16, hl]
 
 theorem scanInLineAt_digit (C : Classes) {z : Z} {c : UInt8} {t : Bytes} (hz : z.after = c :: t)
@@ -210,8 +303,10 @@ theorem scanInLineAt_digit (C : Classes) {z : Z} {c : UInt8} {t : Bytes} (hz : z
   simp only [hd, Bool.not_true, Bool.false_or, Bool.and_eq_true, decide_eq_true_eq, bne_iff_ne, ne_eq,
     Bool.not_eq_true'] at hf
   obtain ⟨⟨⟨⟨⟨⟨⟨⟨⟨⟨⟨⟨⟨⟨⟨⟨⟨hlt, h1⟩, _⟩, h2⟩, h3⟩, h4⟩, h5⟩, h6⟩, h7⟩, h8⟩, h9⟩, h10⟩, h11⟩, h12⟩, h13⟩, h14⟩, h15⟩, _⟩ := hf
+  have hcr : c ≠ 0x0D := by simpa [hd] using not_cr_facts c
+  have hae : atEol (c :: t) = false := atEol_of_ne h2 hcr
   unfold scanInLineAt
-  simp [hz, peekRune, decodeRune_ascii t hlt, h1, h2, h3, h4, h5, h6, h7, h8, h9, h10, h11, h12, h13, h14, h15, hd]
+  simp [hz, hae, peekRune, decodeRune_ascii t hlt, h1, h2, h3, h4, h5, h6, h7, h8, h9, h10, h11, h12, h13, h14, h15, hd]
 
 /-! ### number, sign -/
 
@@ -242,7 +337,8 @@ theorem scanInLineAt_minus (C : Classes) {z : Z} {d : UInt8} {t : Bytes} (hz : z
   simp only [hz, hr]
   rw [← hz, hnd]
   simp only [Bool.or_true, if_true]
-  rw [if_neg (by decide), if_neg (by decide), if_neg (by decide), if_neg (by decide), if_neg (by decide),
+  have hae : atEol z.after = false := by rw [hz]; rfl
+  rw [if_neg (by simp [hae]), if_neg (by decide), if_neg (by decide), if_neg (by decide), if_neg (by decide),
     if_neg (by decide), if_neg (by decide), if_neg (by decide), if_neg (by decide), if_neg (by decide),
     if_neg (by decide), if_neg (by decide), if_pos (by decide)]
   unfold scanSign
@@ -392,13 +488,13 @@ theorem trimSpace_single (c : UInt8) (hc : c < 0x80) (hcs : asciiSpace c = false
   rw [if_neg hc']
   simp [hcs]
 
-/-- **Text.**  A lower-case word `w` followed by more text `r` up to a line feed, `;` or `|`:
+/-- **Text.**  A lower-case word `w` followed by more text `r` (no CR) up to a line end, `;` or `|`:
     one Text token for `w ++ r` (the lexer decides on the first word: it is neither a commodity
     for `C` nor, with no colon ahead, an account). -/
 theorem scanInLineAt_text (C : Classes) {z : Z} {w r rest : Bytes} (hz : z.after = w ++ r ++ rest)
     (hne : w ≠ []) (hw : ∀ c ∈ w, isLower c = true)
     (hC : ∀ c ∈ w, C.isUpper c.toNat = false ∧ C.isDigit c.toNat = false)
-    (hr : ∀ c ∈ r, textByte c = true ∧ c < 0x80) (hrs : Stops alnum (r ++ rest)) (hstop : Stops textByte rest)
+    (hr : ∀ c ∈ r, textByte c = true ∧ c < 0x80) (hrs : Stops alnum (r ++ rest)) (hstop : StopsL textP rest)
     (hacc : looksLikeAccount z.after = false) (htrim : trimSpace (w ++ r) = w ++ r) :
     scanInLineAt C z = (tokAt .text (w ++ r) z (w ++ r).length, z.over (w ++ r) rest) := by
   obtain ⟨c, t, rfl⟩ := List.exists_cons_of_ne_nil hne
@@ -423,12 +519,19 @@ theorem scanInLineAt_text (C : Classes) {z : Z} {w r rest : Bytes} (hz : z.after
     simp [(hC c (by simp)).1, (hC c (by simp)).2]
   have h4 : isAllUppercase (c :: t) = false := by
     simp [isAllUppercase, (hlow c (by simp)).2.2.2]
-  have h5 : advWhile (fun ch => !(ch == 0x0A || ch == 0x3B || ch == 0x7C)) z = z.over (c :: t ++ r) rest := by
-    refine advWhile_over textByte (by simpa using hz) ?_ hstop
+  have h5 : advLine (fun ch => !(ch == 0x3B || ch == 0x7C)) z = z.over (c :: t ++ r) rest := by
+    have hline : ∀ x, textByte x = true → textP x = true ∧ x ≠ LF ∧ x ≠ 0x0D := by
+      intro x hx
+      have := textByte_line x
+      simp only [hx, Bool.not_true, Bool.false_or, Bool.and_eq_true, bne_iff_ne, ne_eq] at this
+      exact ⟨this.1.1, this.1.2, this.2⟩
+    refine advLine_over textP (by simpa using hz) ?_ hstop
     intro x hx
     rcases List.mem_append.mp hx with hx | hx
-    · exact ⟨(hlow x hx).2.2.1, (hlow x hx).2.1⟩
-    · exact hr x hx
+    · have := hline x (hlow x hx).2.2.1
+      exact ⟨this.1, (hlow x hx).2.1, this.2⟩
+    · have := hline x (hr x hx).1
+      exact ⟨this.1, (hr x hx).2, this.2⟩
   unfold scanCommodityOrText
   simp only [h1, h2, between_over, h3, h4, Bool.false_and, Bool.and_false, Bool.false_eq_true, if_false]
   unfold scanText
